@@ -316,6 +316,15 @@ class Engine:
         state.pc.append(g)
         return ob
 
+    def add_decided(self, kind, label, status, backend, time_s=0.0, detail=None, model=None):
+        """an obligation decided by a non-SMT back end (exact polynomial identity testing)"""
+        name = f"{self.prop}/{self.unit}/{kind}:{label}"
+        ob = Obligation(name, kind, [], z3.BoolVal(True), {"decided": True})
+        ob.status, ob.backend, ob.time, ob.detail, ob.model = status, backend, time_s, detail, model
+        ob.raw = {"log": [(backend, status, round(time_s, 3))], "prep": 0.0}
+        self.obligations.append(ob)
+        return ob
+
     def cover(self, state, label):
         name = f"{self.prop}/{self.unit}/cover:{label}"
         n = self.counter.get(("cv", name), 0)
